@@ -282,4 +282,30 @@ def listEntry (i : ListIn) : Option Bool :=
 def mergedListing {N : Type} (names : List (N × ListIn)) : List (N × Bool) :=
   names.filterMap (fun x => (listEntry x.2).map (fun s => (x.1, s)))
 
+
+/-! ### 5. single-object queries `smart_info_path` (431-442) and `smart_info_oid` (444-450)
+
+Both go through `_get_smartinfo` with no visibility filter.  `smart_info_path` passes the local provider's info of the
+path and the FIRST remote state entry at the translated path; `smart_info_oid` passes NO local info at all (so it answers
+`is_synced = False` even for a downloaded file — the code as it is), and answers nothing when the entry is unknown or its
+remote path does not translate. -/
+
+/-- `smart_info_path`: `none` = None, `some s` = SmartInfo with `is_synced = s` -/
+def infoPath (i : ListIn) : Option Bool := getSmartInfo i
+
+/-- `smart_info_oid`: `known` = `lookup_oid(REMOTE, oid)` found an entry, `translates` = its remote path translates -/
+def infoOid (known translates : Bool) (i : ListIn) : Option Bool :=
+  if known && translates then getSmartInfo { i with hasLocal := false, hasRent := true } else none
+
+/-- the variant of `_get_smartinfo` that tests the LOCAL tombstone twice and never the REMOTE one
+    (`any(rent[LOCAL].exists in (TRASHED, MISSING) for side in (LOCAL, REMOTE))`) — NOT the code; kept as the
+    reference point of the kernel-checked witness `ghost_listed_when_local_checked_twice` -/
+def getSmartInfoLocalTwice (i : ListIn) : Option Bool :=
+  if !i.hasRent && !i.hasLocal then none
+  else if !i.hasLocal then
+    if i.localGone || i.localGone then none
+    else if i.rentLocalPath && !i.pathsMatch then none
+    else some false
+  else some true
+
 end CS.Smart
